@@ -85,7 +85,8 @@ def o_create(case):
     assert len(set((t[2], t[3]) for t in idents)) == len(idents)
     payables, scripts, amounts = [], [], []
     for j, p in enumerate(case["payables"]):
-        addr, script = refvalue.p2pkh(_h("payee", seed, j)[:20])
+        # "to": which payee (several payables may name the same one: a fan-out, or change back to one address)
+        addr, script = refvalue.p2pkh(_h("payee", seed, p.get("to", j))[:20])
         scripts.append(script)
         if p["form"] == "bare":
             payables.append(addr)
@@ -185,6 +186,14 @@ def s_create(draw):
         forms = [("bare" if (i + npay) % 2 else "tuple0") if i in sparse else "fixed" for i in range(npay)]
     amount = st.one_of(st.integers(1, 1000), st.integers(1, 2 * 10 ** 14), st.sampled_from([1, 2, 546, 10 ** 8, 2 * 10 ** 14]))
     payables = [{"form": f, "amount": draw(amount) if f == "fixed" else None} for f in forms]
+    if draw(st.integers(0, 3)) == 0:
+        # few distinct payees: the same address several times among the payables (and equal fixed amounts to it)
+        npayee = draw(st.sampled_from([1, 1, 2, 3]))
+        same_amount = draw(amount)
+        for j, p in enumerate(payables):
+            p["to"] = draw(st.integers(0, npayee - 1))
+            if p["form"] == "fixed" and draw(st.booleans()):
+                p["amount"] = same_amount
     fixed = sum(p["amount"] or 0 for p in payables)
     k = sum(1 for p in payables if p["form"] != "fixed")
     fee = draw(st.one_of(st.just(0), st.integers(0, 10 ** 5), st.integers(0, 10 ** 13)))
